@@ -20,6 +20,7 @@ type SolverCfg struct {
 	TimeoutMs int
 	Dir       string // where to keep scripts of failed obligations
 	Keep      bool
+	Quick     map[string]bool // obligations listed as undecided: one cheap attempt only (they are not counted either way)
 }
 
 func preamble(timeoutMs int) string {
